@@ -15,6 +15,7 @@ import (
 	"sort"
 	"strconv"
 	"strings"
+	"time"
 
 	"lunar/engine/actions"
 	"lunar/engine/config"
@@ -161,6 +162,9 @@ func respPolicy(objs []any) string {
 //   apikey=<hdrs>     authentication with an api_key account
 //   oauth=<secret>    authentication with an o_auth account {client_secret: secret}  (GenerateRequestAction)
 //   retry=<N>,<lo>,<hi>  retry{attempts 1, initial_cooldown_seconds N, status_code lo..hi}
+//   throttle=<S>      concurrency_based_throttling{max_concurrent_requests 0, response_status_code S}
+//   cache=on          caching (one URL, so one record): stores on the response leg, answers a hit on the request leg
+// All legacy ops of one case share ONE set of plugin objects (legacyState): a case is a sequence of transactions.
 // The *_active_remedies variables are removed from the answer.
 
 func parseHdrList(s string) ([][2]string, bool) {
@@ -242,6 +246,18 @@ func buildLegacy(words []string) (*sharedConfig.PoliciesConfig, bool) {
 			pc.Accounts[acc] = sharedConfig.Account{Authentication: sharedConfig.Authentication{
 				OAuth: &sharedConfig.OAuth{Tokens: []sharedConfig.Body{{Name: "client_secret", Value: sec}}}}}
 			cfg.Authentication = &sharedConfig.AuthConfig{Account: acc}
+		case "throttle":
+			n, err := strconv.Atoi(val)
+			if err != nil {
+				return nil, false
+			}
+			// no slot is ever free: every request is answered 429-style by the plugin
+			cfg.ConcurrencyBasedThrottling = &sharedConfig.ConcurrencyBasedThrottlingConfig{MaxConcurrentRequests: 0, ResponseStatusCode: n}
+		case "cache":
+			if val != "on" {
+				return nil, false
+			}
+			cfg.Caching = &sharedConfig.CachingConfig{TTLSeconds: 100000, MaxRecordSizeBytes: 100000, MaxCacheSizeMegabytes: 10}
 		case "retry":
 			p := strings.Split(val, ",")
 			if len(p) != 3 {
@@ -263,10 +279,27 @@ func buildLegacy(words []string) (*sharedConfig.PoliciesConfig, bool) {
 	return pc, true
 }
 
-func legacyServices() *services.PoliciesServices {
-	s := newPolicyServices()
-	s.Remedies.AuthPlugin = remedies.NewAuthPlugin()
-	return s
+// legacyState: the plugin objects of one case and a transaction counter (fresh transaction id per op).
+type legacyState struct {
+	svc *services.PoliciesServices
+	txn int
+}
+
+func (st *legacyState) services() *services.PoliciesServices {
+	if st.svc == nil {
+		clk := clock.NewMockClock()
+		s := newPolicyServices()
+		s.Remedies.AuthPlugin = remedies.NewAuthPlugin()
+		s.Remedies.ConcurrencyBasedThrottlingPlugin = remedies.NewConcurrencyBasedThrottlingPlugin(clk, 10*time.Second)
+		s.Remedies.CachingPlugin = remedies.NewCachingPlugin(clk)
+		st.svc = s
+	}
+	return st.svc
+}
+
+func (st *legacyState) nextID() string {
+	st.txn++
+	return fmt.Sprintf("t%d", st.txn)
 }
 
 func stripAllActive(as spoe.Actions) spoe.Actions {
@@ -280,7 +313,7 @@ func stripAllActive(as spoe.Actions) spoe.Actions {
 	return out
 }
 
-func legacyReq(w []string) string {
+func legacyReq(st *legacyState, w []string) string {
 	if len(w) < 1 || !strings.HasPrefix(w[0], "h=") {
 		return "bad-op"
 	}
@@ -296,24 +329,40 @@ func legacyReq(w []string) string {
 	if err != nil {
 		return "err:policy-tree"
 	}
-	req := messages.OnRequest{ID: "t1", SequenceID: "t1", Method: "GET", Scheme: "https", URL: "verif.test/c07",
+	id := st.nextID()
+	req := messages.OnRequest{ID: id, SequenceID: id, Method: "GET", Scheme: "https", URL: "verif.test/c07",
 		Path: "/c07", Headers: h}
-	out, err := runner.DispatchOnRequest(req, tree, pc, legacyServices(), runner.NewDiagnosisWorker())
+	out, err := runner.DispatchOnRequest(req, tree, pc, st.services(), runner.NewDiagnosisWorker())
 	if err != nil {
 		return "err:dispatch"
 	}
 	return fmtSpoe(stripAllActive(out))
 }
 
-func legacyResp(w []string) string {
+func legacyResp(st *legacyState, w []string) string {
 	if len(w) < 1 || !strings.HasPrefix(w[0], "status=") {
 		return "bad-op"
 	}
-	st, err := strconv.Atoi(w[0][7:])
+	status, err := strconv.Atoi(w[0][7:])
 	if err != nil {
 		return "bad-op"
 	}
-	pc, ok := buildLegacy(w[1:])
+	rest := w[1:]
+	body := ""
+	rh := map[string]string{}
+	if len(rest) > 0 && strings.HasPrefix(rest[0], "body=") {
+		body = proto.Dec(rest[0][5:])
+		rest = rest[1:]
+	}
+	if len(rest) > 0 && strings.HasPrefix(rest[0], "rh=") {
+		h, ok := parseHdrs(rest[0][3:])
+		if !ok {
+			return "bad-op"
+		}
+		rh = h
+		rest = rest[1:]
+	}
+	pc, ok := buildLegacy(rest)
 	if !ok {
 		return "bad-op"
 	}
@@ -321,9 +370,10 @@ func legacyResp(w []string) string {
 	if err != nil {
 		return "err:policy-tree"
 	}
-	resp := messages.OnResponse{ID: "t1", SequenceID: "t1", Method: "GET", URL: "verif.test/c07", Status: st,
-		Headers: map[string]string{}}
-	out, err := runner.DispatchOnResponse(resp, tree, &pc.Global, legacyServices(), runner.NewDiagnosisWorker())
+	id := st.nextID()
+	resp := messages.OnResponse{ID: id, SequenceID: id, Method: "GET", URL: "verif.test/c07", Status: status,
+		Body: body, Headers: rh}
+	out, err := runner.DispatchOnResponse(resp, tree, &pc.Global, st.services(), runner.NewDiagnosisWorker())
 	if err != nil {
 		return "err:dispatch"
 	}
